@@ -345,7 +345,7 @@ def run(ctx):
     heavy_all = small1 + classics
     heavy_pin = [b for b in heavy_all if reaches_pins(b)]
     heavy_nopin = [b for b in heavy_all if not reaches_pins(b)]
-    tri_pin = [b for b in (rng.sample(triples1, 400) if quick else rng.sample(triples1, 2500)) if reaches_pins(b)]
+    tri_pin = [b for b in rng.sample(triples1, 400 if quick else 900) if reaches_pins(b)]
     if quick:
         main = [(b, True) for b in rng.sample(heavy_pin, 80) + classics + tri_pin[:15]]
         main += [(b, j % 8 == 0) for j, b in enumerate(heavy_nopin)]
@@ -363,7 +363,7 @@ def run(ctx):
             rule="bases that are finite or polynomial by the C13 spec: the direct verdict must be 'finitely many'")
 
     inter = []
-    src = (rng.sample(heavy_pin, 24) + rng.sample(heavy_nopin, 30) + classics) if quick else (heavy_pin + heavy_nopin + tri_pin[:200])
+    src = (rng.sample(heavy_pin, 24) + rng.sample(heavy_nopin, 30) + classics) if quick else (rng.sample(heavy_pin, 150) + rng.sample(heavy_nopin, 150) + tri_pin[:50])
     for b in src:
         arr = list(b)
         if rng.random() < 0.5:
@@ -374,7 +374,7 @@ def run(ctx):
             rule="bases in a seeded order with repetitions x {function on list/Basis, Av method via Basis/list, "
                  "strategy via list/generator, CLI through its parser}")
 
-    symm = (rng.sample(heavy_pin, 24) + rng.sample(heavy_nopin, 60) + classics[:8]) if quick else (heavy_pin + heavy_nopin + tri_pin[:150])
+    symm = (rng.sample(heavy_pin, 24) + rng.sample(heavy_nopin, 60) + classics[:8]) if quick else (heavy_pin + rng.sample(heavy_nopin, 200) + tri_pin[:40])
     ctx.run("C16.symmetry", symm, chunk=2,
             rule="bases x 8 symmetric images (geometric spec map), each image in reversed order; the three helpers too")
 
